@@ -926,6 +926,9 @@ class Interp:
             ca, cb = concrete(na), concrete(nb)
             if ca is not None and cb is not None:
                 return ca % cb
+            return X.add(na, X.neg(X.mul(nb, X.fn('floor', X.div(na, nb)))))         # Python / numpy remainder: a - b floor(a / b)
+        if isinstance(op, ast.FloorDiv):
+            return X.fn('floor', X.div(na, nb))
         raise AnalysisError(f'unsupported operator {type(op).__name__} on symbolic values')
 
     def e_BoolOp(self, e, fr):
@@ -1332,6 +1335,8 @@ class Interp:
             return X.fn('abs', to_node(a))
         if nm == 'pow':
             return X.power(to_node(args[0]), to_node(args[1]))
+        if nm in ('mod', 'remainder') and len(args) == 2 and all(is_num(a_) for a_ in args):
+            return self.binop(ast.Mod(), args[0], args[1], e, fr)
         if nm in ('max', 'min', 'fmax', 'fmin', 'maximum', 'minimum') and len(args) >= 2 and all(is_num(a) for a in args):
             cs = [concrete(a) for a in args]
             if all(c is not None for c in cs):
